@@ -378,6 +378,13 @@ func ConcurrentSame(calls []Call, goroutines, reps int) (int, string, string) {
 	for k := range calls {
 		ref[k] = run(k)
 	}
+	// the answer to a call may not depend on which calls the process has executed before it (package-level state that
+	// a call leaves behind): the same calls once more, last first
+	for k := len(calls) - 1; k >= 0; k-- {
+		if got := run(k); got != ref[k] {
+			return k, ref[k], got + " (sequential re-evaluation in reverse order)"
+		}
+	}
 	var mu sync.Mutex
 	bad, badGot := -1, ""
 	var wg sync.WaitGroup
